@@ -6,11 +6,13 @@ CONFIG = {
     "sources": ["VProps/C19.lean", "VProofs/ConcDns.lean", "VProofs/ConcFetch.lean", "VModel/ConcDns.lean", "VModel/ConcFetch.lean"],
     "theorems": [
         "V.C19.dns_size_bounded", "V.C19.dns_no_dup_keys", "V.C19.dns_no_stale_served", "V.C19.dns_right_host",
-        "V.C19.dns_mutex_owner", "V.C19.dns_lockset_discipline", "V.C19.dns_no_deadlock", "V.C19.dns_evict_terminates", "V.C19.dns_lookup_terminates", "V.C19.dns_disabled_of_size_le_zero",
+        "V.C19.linearizable_lookup_partial", "V.C19.dns_mutex_owner", "V.C19.dns_lockset_discipline", "V.C19.dns_no_deadlock", "V.C19.dns_evict_terminates", "V.C19.dns_lookup_terminates", "V.C19.dns_disabled_of_size_le_zero",
         "V.C19.dns_expiry_bounded", "V.C19.dns_evict_spins_of_size_le_zero", "V.C19.dns_evict_spins_while_clock_frozen",
         "V.C19.fetch_union", "V.C19.fetch_spec_map", "V.C19.fetch_no_deadlock", "V.C19.fetch_terminates",
         "V.C19.fetch_waitgroup_exact", "V.C19.fetch_lockset_discipline",
         "V.C19.transport_no_dup", "V.C19.transport_lockset_discipline", "V.C19.event_accessors_read_only", "V.C19.event_id_same_for_all",
+        "V.C19.sync_skeleton_dns_lookup", "V.C19.sync_skeleton_dns_dialcontext", "V.C19.sync_skeleton_transport",
+        "V.C19.sync_skeleton_fetchkeys", "V.C19.sync_skeleton_eventid",
     ],
     "rule": "ONE op = one whole concurrent scenario + schedule, run on the real code with the interleaving controlled at "
             "atomic-region granularity (scripted resolver / key client block each goroutine in its unlocked call until released). "
@@ -22,6 +24,7 @@ CONFIG = {
             "(thorough). An op is non-trivial when its trace has >= 4 moves; distinct by op line",
     "nontrivial": lambda op, impl: impl.count("|") >= 3 or impl.count("#") == 1 and len(impl) > 8 or impl in ("clean", "race-detected"),
     "trusted": COMMON_TRUSTED + [
+        "tools/extract/conc.go prints the synchronisation skeleton (Lock/Unlock/WaitGroup/close/oracle calls, loop and size/expiry conditions) of lookup, DialContext, getTransport, reaper, FetchKeys, EventID into VGen/Conc.lean; sync_skeleton_* re-check them against what the models mirror",
         "the Go scheduler, runtime (mutex, channel, WaitGroup semantics: modelled as atomic lock/unlock, atomic receive from a closed buffered channel, counter) and time.Now (monotonic, modelled as a non-decreasing parameter)",
         "the atomic-region granularity of the model (one step = lock..unlock region / channel receive / unlocked oracle call) is tied to the code only by the schedule-for-schedule correspondence",
         "race detector runs (conc.race_*) are supporting evidence, not proof",
@@ -32,7 +35,7 @@ CONFIG = {
         "termination of the eviction loop needs a clock read strictly later than the stored entries' timestamps (true of a real monotonic clock after at most one tick; dns_evict_spins_while_clock_frozen shows the hypothesis is needed)",
         "dns_right_host assumes the resolver's successful answers are a function of the host name",
         "event accessors: EventIDRaw is written only during construction (populateEventID, /repo 69aec98) and read-only afterwards (event_accessors_read_only); that the OTHER accessors of a parsed event do not write is checked by reading + the race-detector ops conc.race_eventid / conc.race_event_readonly, not modelled field by field",
-        "linearizability of lookups is covered in the form: every returned entry is the resolver's answer for the requested name (dns_right_host), cached entries are unexpired at the check (dns_no_stale_served), a lookup fails only if its own resolver call failed (spec stream of conc.dns); no separate linearizable_lookup theorem",
+        "linearizable_lookup_partial: every result is one the sequential specification of its own op allows (right addresses; failure only if that lookup's own resolver call failed); the cached/not-cached flag and the map contents are not claimed to match one sequential execution (two concurrent misses of a name both resolve)",
         "destinationTripper.getTransport / reaper: modelled (one locked region each, transport_no_dup) and stress-tested under the race detector; no schedule-for-schedule correspondence (no hook, needs TLS connections)",
         "the KeyDatabase given to a KeyRing is the caller's and must be thread-safe on its own",
     ],
